@@ -574,8 +574,8 @@ func (ex *Exec) concInt(v Value, what string) int {
 	if !t.conc {
 		// the path condition may determine the value uniquely (e.g. the length of a decimal rendering once its
 		// digit count has been fixed): take the model value and check that no other value is feasible
-		if ex.solver.check() == "sat" {
-			if vals, ok := ex.solver.getValues([]*Term{t}); ok {
+		if ex.active.check() == "sat" {
+			if vals, ok := ex.active.getValues([]*Term{t}); ok {
 				c := bvConst(t.w, vals[0])
 				if !ex.feasible(tNot(tEq(t, c))) {
 					return int(c.sval())
